@@ -163,13 +163,24 @@ def run(tier, seed):
                 ref = harness.ref_der(base, t, v)
                 if ref is None:
                     continue
-                cid += 1
-                ops = ["dec s=0 t=%s syn=BER in=%s" % (tname, drv.hx(ref))] + ["enc s=0 syn=%s" % s for s in SYNS]
-                # the default build's own reading of its outputs is the yardstick for the other builds' reading
-                for i, s in enumerate(SYNS):
-                    ops += ["enc s=0 syn=%s reg=%d quiet=1" % (s, i + 1), "dec s=1 t=%s syn=%s inreg=%d" % (tname, s, i + 1), "enc s=1 syn=DER", "free s=1"]
-                cases.append(drv.Case(cid, ops))
-                meta[cid] = (tname, t, v, ref)
+                refs = [ref]
+                # the same value as BER with the DEFAULT-equal components present: in memory the members are then set to
+                # their default values, and whether an encoder leaves them out again is decided by generated comparison code
+                # that differs between the native and the wide representation
+                try:
+                    alt = der.Encoder(base.mod, emit_defaults=True).encode(t, v)
+                    if alt != ref:
+                        refs.append(alt)
+                except der.Unsupported:
+                    pass
+                for ref in refs:
+                    cid += 1
+                    ops = ["dec s=0 t=%s syn=BER in=%s" % (tname, drv.hx(ref))] + ["enc s=0 syn=%s" % s for s in SYNS]
+                    # the default build's own reading of its outputs is the yardstick for the other builds' reading
+                    for i, s in enumerate(SYNS):
+                        ops += ["enc s=0 syn=%s reg=%d quiet=1" % (s, i + 1), "dec s=1 t=%s syn=%s inreg=%d" % (tname, s, i + 1), "enc s=1 syn=DER", "free s=1"]
+                    cases.append(drv.Case(cid, ops))
+                    meta[cid] = (tname, t, v, ref)
         res0 = drv.run_parallel(base.exe, cases)
         cols0, self0 = {}, {}
         for cid, (tname, t, v, ref) in meta.items():
